@@ -1,5 +1,6 @@
 import FqModel.Proto
 import FqModel.Total
+import FqModel.Total2
 /-! driver for C13 — "every function fq adds is total over jq values"
 
   `call <name>/<arity> <V input> <V arg>*` TAB `<class>`
@@ -14,6 +15,7 @@ import FqModel.Total
   `preview <V string> n:<string_truncate>` TAB `ok <runes kept>` | `panic`        previewValue (preview.go)
   `asciiw|hexpw <width> <start> <l,l,…|l,…>` TAB `ok <bytes written> <len buf>` | `panic`   the dump's column writers
   `optsfmt <V>` TAB `ok <size prefix|->` | `err` | `panic`       the bits format closure it returns, run
+  `linecol <V string> n:<offset>` TAB `ok <line> <column>` | `panic`              internal/pos NewFromOffset
 
   V is the token grammar of harness/cmd/c13/pool.go.
 -/
@@ -410,10 +412,170 @@ def predByteColor (c b : JV) : Pred :=
     | none => noPanic
   | _, _ => noPanic
 
+/-! ### second batch (FqModel/Total2.lean) -/
+
+/-- how a position that is cast to a string sees the value: none = the cast fails, some none = a
+    string whose bytes the token does not carry (1 MiB strings, unaligned binaries) -/
+def strView (tok : String) (v : JV) : Option (Option (List Nat)) :=
+  match v with
+  | .bin nbits _ =>
+    match binBytes tok with
+    | some bs => if nbits == 8 * bs.length then some (some bs) else some none
+    | none => some none
+  | _ =>
+    match castStr v with
+    | some bs => if tok.startsWith "S:" then some none else some (some bs)
+    | none => none
+
+def clsOfOutcome {α} (o : Outcome α) : Pred :=
+  match o with
+  | .ok _ => exactCls "ok"
+  | .err _ => exactCls "err"
+  | .panic _ => exactCls "panic"
+  | .resource _ => exactCls "resource"
+
+/-- the harness' token of a string result (pool.go tokOf): short strings only -/
+def strResultTok (bs : List Nat) : Option String :=
+  if bs.length ≤ 64 then some s!"s:{hexOfBytes bs}" else none
+
+def binResultTok (nbytes : Nat) : String := s!"?binary[{8 * nbytes}/8]"
+
+def predFromHex (tok : String) (c : JV) : Pred :=
+  match strView tok c with
+  | none => exactCls "err"
+  | some none => noPanic
+  | some (some bs) =>
+    match hexDecodeString bs with
+    | .ok out => { classes := ["ok"], value := some (binResultTok out.length) }
+    | o => clsOfOutcome o
+
+def predUnescape (plusSpace : Bool) (tok : String) (c : JV) : Pred :=
+  match strView tok c with
+  | none => exactCls "err"
+  | some none => noPanic
+  | some (some bs) =>
+    match unescape plusSpace bs with
+    | .ok out => { classes := ["ok"], value := strResultTok out }
+    | o => clsOfOutcome o
+
+def predUrlQuery (tok : String) (c : JV) : Pred :=
+  match strView tok c with
+  | none => exactCls "err"
+  | some none => noPanic
+  | some (some bs) => clsOfOutcome (fromUrlQueryStr bs)
+
+def predStrFn0 (c : JV) : Pred := if (castStr c).isSome then exactCls "ok" else exactCls "err"
+
+def predNalUnescape (tok : String) (c : JV) : Pred :=
+  match toBitReader 0 false c with
+  | .ok _ =>
+    let bytes : Option (List Nat) :=
+      match c with
+      | .str bs => if tok.startsWith "S:" then none else some bs
+      | .bin _ _ => (strView tok c).bind id
+      | _ => none
+    match bytes with
+    | some bs =>
+      match nalUnescape 0 c bs with
+      | .ok out => { classes := ["ok"], value := some (binResultTok out.length) }
+      | o => clsOfOutcome o
+    | none => exactCls "ok"
+  | o => clsOfOutcome o
+
+def optObj (k v : String) : JV := .obj [(k, .str (v.toUTF8.toList.map (·.toNat)))]
+
+/-- `{encoding: "std"} + $opts` (jq object addition: the right side wins; null is neutral) -/
+def addStdEncoding (o : JV) : Option JV :=
+  match o with
+  | .null => some (optObj "encoding" "std")
+  | .obj kv => some (.obj (kv ++ [("encoding", .str [115, 116, 100])]))
+  | _ => none
+
+def isOpaqueDv : JV → Bool
+  | .dv (.obj _) => true
+  | .dv (.arr _) => true
+  | _ => false
+
+/-- the x/text encoder / decoder is abstract: where the model reaches it, ok and err are both admitted -/
+def predAbstractTail (o : Outcome Unit) : Pred :=
+  match o with
+  | .ok _ => { classes := ["ok", "err"] }
+  | o => clsOfOutcome o
+
+def predToCSV (c o : JV) : Pred :=
+  if isOpaqueDv c then noPanic
+  else match castArr c with
+    | some rows => if rows.any isOpaqueDv then noPanic else clsOfOutcome (toCSV c o)
+    | none => clsOfOutcome (toCSV c o)
+
+/-- the virtual OS of the harness (vos.go): stdin is an empty reader that is also writable and a
+    terminal; stdout / stderr are writers and terminals, not readers -/
+def predStdioRead (fd l : JV) : Pred :=
+  let isStdin := match castStr fd with | some n => strOfBytes n == "stdin" | none => false
+  match stdioReadCall fd l isStdin 0 with
+  | .ok _ => if castInt l == some 0 then exactCls "ok" else exactCls "err"     -- io.ReadFull on empty stdin: EOF unless 0 bytes are asked for
+  | o => clsOfOutcome o
+
+def hashWrappers : List (String × String) :=
+  [("to_md4/0", "md4"), ("to_md5/0", "md5"), ("to_sha1/0", "sha1"), ("to_sha256/0", "sha256"), ("to_sha512/0", "sha512"),
+   ("to_sha3_224/0", "sha3_224"), ("to_sha3_256/0", "sha3_256"), ("to_sha3_384/0", "sha3_384"), ("to_sha3_512/0", "sha3_512")]
+
+def toEncWrappers : List (String × String) :=
+  [("to_iso8859_1/0", "ISO8859_1"), ("to_utf8/0", "UTF8"), ("to_utf16/0", "UTF16"), ("to_utf16le/0", "UTF16LE"), ("to_utf16be/0", "UTF16BE")]
+def fromEncWrappers : List (String × String) :=
+  [("from_iso8859_1/0", "ISO8859_1"), ("from_utf8/0", "UTF8"), ("from_utf16/0", "UTF16"), ("from_utf16le/0", "UTF16LE"), ("from_utf16be/0", "UTF16BE")]
+
+def modelled2 : List String :=
+  ["from_hex/0", "to_hex/0", "_to_base64/1", "to_base64/0", "to_base64/1", "_to_hash/1", "_to_strencoding/1", "_from_strencoding/1",
+   "nal_unescape/0", "_query_fromstring/0", "from_urlencode/0", "from_urlpath/0", "from_urlquery/0", "to_urlquery/0", "to_url/0",
+   "to_urlencode/0", "to_urlpath/0", "from_xmlentities/0", "to_xmlentities/0",
+   "_to_csv/1", "to_csv/0", "to_csv/1", "_stdio_read/2", "_stdio_write/1", "_stdio_info/1"]
+  ++ hashWrappers.map (·.1) ++ toEncWrappers.map (·.1) ++ fromEncWrappers.map (·.1)
+
+def predict2 (fn : String) (toks : List String) (vs : List JV) : Option Pred :=
+  let tok0 := toks.headD ""
+  match fn, vs with
+  | "from_hex/0", [c] => some (predFromHex tok0 c)
+  | "to_hex/0", [c] => some (clsOfOutcome (toHex 0 c))
+  | "_to_base64/1", [c, o] => some (clsOfOutcome (toBase64 0 c o))
+  | "to_base64/0", [c] => some (clsOfOutcome (toBase64 0 c .null))
+  | "to_base64/1", [c, o] =>
+    if isOpaqueDv o then some noPanic else
+    some (match addStdEncoding (toGoJQ o) with
+      | some o' => clsOfOutcome (toBase64 0 c o')
+      | none => exactCls "err")
+  | "_to_hash/1", [c, o] => some (clsOfOutcome (toHash 0 c o))
+  | "_to_strencoding/1", [c, o] => some (predAbstractTail (toStrEncoding c o (.ok ())))
+  | "_from_strencoding/1", [c, o] => some (predAbstractTail (fromStrEncoding 0 c o (.ok ())))
+  | "nal_unescape/0", [c] => some (predNalUnescape tok0 c)
+  | "_query_fromstring/0", [c] => some (if (castStr c).isSome then { classes := ["ok", "err"] } else exactCls "err")
+  | "from_urlencode/0", [c] => some (predUnescape true tok0 c)
+  | "from_urlpath/0", [c] => some (predUnescape false tok0 c)
+  | "from_urlquery/0", [c] => some (predUrlQuery tok0 c)
+  | "to_urlquery/0", [c] => some (clsOfOutcome (toUrlQuery c))
+  | "to_url/0", [c] => some (clsOfOutcome (toUrl c))
+  | "to_urlencode/0", [c] => some (predStrFn0 c)
+  | "to_urlpath/0", [c] => some (predStrFn0 c)
+  | "from_xmlentities/0", [c] => some (predStrFn0 c)
+  | "to_xmlentities/0", [c] => some (predStrFn0 c)
+  | "_to_csv/1", [c, o] => some (predToCSV c o)
+  | "to_csv/1", [c, o] => some (predToCSV c o)
+  | "to_csv/0", [c] => some (predToCSV c .null)
+  | "_stdio_read/2", [_, fd, l] => some (predStdioRead fd l)
+  | "_stdio_write/1", [_, fd] => some (clsOfOutcome (stdioFdOp fd true))
+  | "_stdio_info/1", [_, fd] => some (clsOfOutcome (stdioFdOp fd true))
+  | _, [c] =>
+    match hashWrappers.find? (·.1 == fn), toEncWrappers.find? (·.1 == fn), fromEncWrappers.find? (·.1 == fn) with
+    | some (_, name), _, _ => some (clsOfOutcome (toHash 0 c (optObj "name" name)))
+    | _, some (_, name), _ => some (predAbstractTail (toStrEncoding c (optObj "encoding" name) (.ok ())))
+    | _, _, some (_, name) => some (predAbstractTail (fromStrEncoding 0 c (optObj "encoding" name) (.ok ())))
+    | _, _, _ => none
+  | _, _ => none
+
 def modelled : List String :=
   ["bnot/0", "bsl/2", "bsr/2", "band/2", "bor/2", "bxor/2", "to_radix/1", "from_radix/1", "_tobits/1",
    "tobits/1", "tobytes/1", "_to_toml/1", "to_toml/1", "to_xml/1", "_to_json/1", "tojson/1", "_to_yaml/1",
-   "to_yaml/1", "intdiv/2", "@index/1", "@slice/2", "@bytecolor/1"]
+   "to_yaml/1", "intdiv/2", "@index/1", "@slice/2", "@bytecolor/1"] ++ modelled2
 
 def predict (fn : String) (toks : List String) (vs : List JV) : Option Pred :=
   match fn, vs with
@@ -439,7 +601,7 @@ def predict (fn : String) (toks : List String) (vs : List JV) : Option Pred :=
   | "@index/1", [c, i] => some (predIndex (toks.headD "") c i)
   | "@slice/2", [c, s, e] => some (predSlice c s e)
   | "@bytecolor/1", [c, b] => some (predByteColor c b)
-  | _, _ => none
+  | _, _ => predict2 fn toks vs
 
 /-! ### observation classes -/
 
@@ -631,6 +793,21 @@ def writerVerdict (kind sw ss schunks obs : String) : String :=
     verdict model obs
   | _, _, _ => "BADOP token"
 
+/-- `linecol s:<hex> n:<offset>`: the real pos.NewFromOffset; observation = line and column -/
+def linecolVerdict (stok otok obs : String) : String :=
+  match parseTok stok, parseTok otok with
+  | some (.str bs), some (.int off) =>
+    if obs == "panic" then "PROPFAIL offsetToLineColumn-slice-out-of-range" else
+    if obs == "hang" then "PROPFAIL offsetToLineColumn-does-not-terminate" else
+    let model := match offsetToLineColumn bs off with
+      | .ok (some (l, c)) => s!"ok {l} {c}"
+      | .ok none => "hang"
+      | .err _ => "err"
+      | .panic _ => "panic"
+      | .resource _ => "resource"
+    verdict model obs
+  | _, _ => "BADOP token"
+
 def stepC13 (op obs : String) : String :=
   match words op with
   | "call" :: fn :: toks => if toks.isEmpty then "BADOP call" else callVerdict fn toks obs
@@ -638,6 +815,7 @@ def stepC13 (op obs : String) : String :=
   | ["opts", tok] => optsVerdict tok obs
   | ["optsfmt", tok] => optsfmtVerdict tok obs
   | ["preview", stok, ltok] => previewVerdict stok ltok obs
+  | ["linecol", stok, otok] => linecolVerdict stok otok obs
   | ["asciiw", w, st, ch] => writerVerdict "asciiw" w st ch obs
   | ["hexpw", w, st, ch] => writerVerdict "hexpw" w st ch obs
   | _ => "BADOP op"
